@@ -136,76 +136,61 @@ func runC02(c *Ctx) {
 			}
 			c.check(atomicOp, "R02.1", construct, c.ipos(u.At), "atomic", "the id counter is accessed non-atomically by concurrently running callers: two calls can obtain the same id and receive each other's response")
 		}
-		// the request literal's id in FN_call
+		// the request literal's id in the client call path (the call function, its helpers and closures)
 		nid := 0
-		allInstrs(r.FnCall, func(in ssa.Instruction) {
-			st, ok := in.(*ssa.Store)
-			if !ok {
-				return
-			}
-			fa, ok := st.Addr.(*ssa.FieldAddr)
-			if !ok || fieldOfAddr(fa) != r.FReqID {
-				return
-			}
-			nid++
-			construct := fmt.Sprintf("%s: id of the outgoing request", fname(r.FnCall))
-			var lv []ssa.Value
-			leaves(st.Val, map[ssa.Value]bool{}, &lv)
-			okAll := true
-			for _, l := range lv {
-				if isNilConst(l) {
-					continue
+		isMint := func(v ssa.Value) bool {
+			for _, m := range mint {
+				if m == v {
+					return true
 				}
-				if ex, ok := l.(*ssa.Extract); ok && ex.Index == 0 {
-					if call, ok := ex.Tuple.(*ssa.Call); ok && staticCallee(call) == r.FnNorm {
-						isMint := func(v ssa.Value) bool {
-							for _, m := range mint {
-								if m == v {
-									return true
-								}
+			}
+			return false
+		}
+		for _, fn := range c.region(r.FnCall) {
+			allInstrsRaw(fn, func(in ssa.Instruction) {
+				st, ok := in.(*ssa.Store)
+				if !ok {
+					return
+				}
+				fa, ok := st.Addr.(*ssa.FieldAddr)
+				if !ok || fieldOfAddr(fa) != r.FReqID {
+					return
+				}
+				nid++
+				construct := fmt.Sprintf("%s: id of the outgoing request", fname(in.Parent()))
+				okAll, hasNorm := true, false
+				for _, o := range c.origins(st.Val) {
+					l := o.Root
+					if len(o.Fields) == 0 && isNilConst(l) {
+						continue
+					}
+					if ex, ok := l.(*ssa.Extract); ok && ex.Index == 0 && len(o.Fields) == 0 {
+						if call, ok := ex.Tuple.(*ssa.Call); ok && p.unbound(staticCallee(call)) == r.FnNorm {
+							hasNorm = true
+							if c.dependsOn(call.Common().Args[0], isMint, 0, map[ssa.Value]bool{}) {
+								continue
 							}
-							return false
-						}
-						if c.dependsOn(call.Common().Args[0], isMint, 0, map[ssa.Value]bool{}) {
+							okAll = false
+							c.bad("R02.1", construct, c.ipos(call), "the normalised id does not come from the atomic counter")
 							continue
 						}
-						okAll = false
-						c.bad("R02.1", construct, c.ipos(call), "the normalised id does not come from the atomic counter")
+					}
+					if len(o.Fields) == 0 && isMint(l) {
+						// pre-normalisation value held in the same variable: tolerated only next to a normalised origin (checked below)
 						continue
 					}
+					okAll = false
+					c.bad("R02.1", construct, c.ipos(st), fmt.Sprintf("the request id can originate from %T, not from the normalised atomic counter", l))
 				}
-				if mi, ok := l.(*ssa.MakeInterface); ok {
-					// pre-normalisation value stored in the same variable: tolerated only if it is the minted value
-					isM := false
-					for _, m := range mint {
-						if mi.X == m {
-							isM = true
-						}
-					}
-					if isM {
-						// must be overwritten by the normalised value before use: the store we look at takes a phi/loaded value; accept only if a normalised leaf also exists
-						continue
-					}
+				if okAll && !hasNorm {
+					okAll = false
+					c.bad("R02.1", construct, c.ipos(st), "the id is never passed through the id normaliser: it would not match the decoded (float64) id of the reply")
 				}
-				okAll = false
-				c.bad("R02.1", construct, c.ipos(st), fmt.Sprintf("the request id can originate from %T, not from the normalised atomic counter", l))
-			}
-			hasNorm := false
-			for _, l := range lv {
-				if ex, ok := l.(*ssa.Extract); ok {
-					if call, ok := ex.Tuple.(*ssa.Call); ok && staticCallee(call) == r.FnNorm {
-						hasNorm = true
-					}
+				if okAll {
+					c.ok("R02.1", construct, c.ipos(st), "nil (notification) or normalise(atomic counter)")
 				}
-			}
-			if okAll && !hasNorm {
-				okAll = false
-				c.bad("R02.1", construct, c.ipos(st), "the id is never passed through the id normaliser: it would not match the decoded (float64) id of the reply")
-			}
-			if okAll {
-				c.ok("R02.1", construct, c.ipos(st), "nil (notification) or normalise(atomic counter)")
-			}
-		})
+			})
+		}
 		if nid == 0 {
 			c.und("R02.1", fname(r.FnCall)+": id of the outgoing request", p.pos(r.FnCall.Pos()), "no request literal with an id found in the call path")
 		}
